@@ -321,7 +321,7 @@ Definition Rit (cnt : Z) (s : ist) (a : absit) : Prop :=
   0 <= idx s <= cnt /\ 0 <= back s <= cnt /\ 0 <= lo a <= hi a /\ hi a <= cnt /\
   (if idx s + back s >=? cnt then lo a = hi a else lo a = idx s /\ hi a = cnt - back s).
 Definition stmt_C05_step : Prop :=
-  forall W cnt o s a op, 0 <= cnt -> cnt + 1 < W -> Rit cnt s a -> op_ok W op ->
+  forall W cnt o s a op, 0 <= cnt -> 2 * cnt + 1 < W -> Rit cnt s a -> op_ok W op ->
   let '(s', ob) := it_step W o cnt s op in
   let '(a', ob') := spec_step a op in
   ob = ob' /\ ob <> ObsPanic /\ Rit cnt s' a'.
@@ -343,17 +343,23 @@ Fixpoint spec_run_hist (as_ : list absit) (hs : list hop) : list (option iobs) :
   end.
 Definition hop_ok (W : Z) (h : hop) : Prop := match h with HOp _ op => op_ok W op | HClone _ => True end.
 Definition stmt_C05_history : Prop :=
-  forall W cnt o hs, 0 <= cnt -> cnt + 1 < W -> Forall (hop_ok W) hs ->
+  forall W cnt o hs, 0 <= cnt -> 2 * cnt + 1 < W -> Forall (hop_ok W) hs ->
   run_hist (it_step W o cnt) [ist0] hs = spec_run_hist [{| lo := 0; hi := cnt |}] hs.
 Definition stmt_C05_no_panic : Prop :=
-  forall W cnt o hs, 0 <= cnt -> cnt + 1 < W -> Forall (hop_ok W) hs ->
+  forall W cnt o hs, 0 <= cnt -> 2 * cnt + 1 < W -> Forall (hop_ok W) hs ->
   ~ In (Some ObsPanic) (run_hist (it_step W o cnt) [ist0] hs).
 Definition stmt_C05_fused : Prop :=
-  forall a op, lo a = hi a -> match op with OpLen | OpSizeHint => True | _ =>
+  forall a op, lo a = hi a -> match op with OpNth n | OpNthBack n => 0 <= n | _ => True end ->
+  match op with OpLen | OpSizeHint => True | _ =>
     snd (spec_step a op) = ObsItem None /\ lo (fst (spec_step a op)) = hi (fst (spec_step a op)) end.
 Definition stmt_C05_len_exact : Prop :=
-  forall W cnt o s a, 0 <= cnt -> cnt + 1 < W -> Rit cnt s a ->
+  forall W cnt o s a, 0 <= cnt -> 2 * cnt + 1 < W -> Rit cnt s a ->
   snd (it_step W o cnt s OpLen) = ObsLen (hi a - lo a) /\ snd (it_step W o cnt s OpSizeHint) = ObsHint (hi a - lo a) (hi a - lo a).
+(* the hypothesis 2 * cnt + 1 < W (fewer than 2^63 variants on a 64-bit target) cannot be weakened to cnt + 1 < W: in the
+   exhausted state idx = back = cnt the sums idx + (back + 1) of next_back and idx + back of size_hint exceed W.
+   Witness with W = 10, cnt = 8: nth(8); next_back; next_back *)
+Definition stmt_C05_hypothesis_needed : Prop :=
+  In (Some ObsPanic) (run_hist (it_step 10 Debug 8) [ist0] [HOp 0 (OpNth 8); HOp 0 OpNextBack; HOp 0 OpNextBack]).
 (* the items the abstract iterator yields are exactly lo, lo+1, .. from the front and hi-1, hi-2, .. from the back,
    each once: draining from the front gives the interval in order *)
 Fixpoint spec_drain (fuel : nat) (a : absit) (op : iop) : list Z :=
@@ -388,7 +394,9 @@ Definition stmt_C04_iter_collect : Prop :=
 Definition stmt_C05_legacy_refuted : Prop :=
   let W := 2 ^ 64 in
   snd (it_step_legacy W Debug 3 ist0 (OpNth (W - 1))) = ObsPanic /\
-  it_step_legacy W Release 3 ist0 (OpNth (W - 1)) = (ist0, ObsItem None) /\
+  (* release: the sum wraps to 0, the cursor is NOT frozen, and `get` is handed the wrapped index 0 - 1 (out of range => None) *)
+  it_step_legacy W Release 3 ist0 (OpNth (W - 1)) = (ist0, ObsItem (Some (W - 1))) /\
+  (forall c, iter_count c = 3 -> iter_get c (W - 1) = None) /\
   snd (it_step_legacy W Release 3 (fst (it_step_legacy W Release 3 ist0 (OpNth (W - 1)))) OpNext) = ObsItem (Some 0).
 Close Scope Z_scope.
 
